@@ -171,7 +171,9 @@ func compileMapKey(typ *runtime.Type, structName, fieldName string, structTypeTo
 		switch t := dec.(type) {
 		case *stringDecoder, *interfaceDecoder:
 			return dec, nil
-		case *boolDecoder, *intDecoder, *uintDecoder, *numberDecoder:
+		case *intDecoder, *uintDecoder:
+			return newMapKeyIntDecoder(typ, dec, structName, fieldName), nil
+		case *boolDecoder, *numberDecoder:
 			return newWrappedStringDecoder(typ, dec, structName, fieldName), nil
 		case *ptrDecoder:
 			dec = t.dec
